@@ -156,7 +156,11 @@ def harness(case, tier):
                 c.prove(len(mine) == 1, 'every-queued-bundle-reported-once[%s]' % ev,
                         detail=dict(side=side, tid=tid, signals=mine, started=started))
             else:
-                c.prove(len(mine) <= 1, 'at-most-one-finished-signal[%s]' % ev, detail=dict(side=side, signals=mine))
+                # an abrupt end: what was not acknowledged is reported as not sent, nothing is silently lost
+                c.prove(len(mine) == 1, 'every-queued-bundle-reported-once[%s]' % ev, detail=dict(side=side, tid=tid, signals=mine))
+                if len(mine) == 1 and mine[0][2] == 'success':
+                    got = [q for q in rx.recv_bundle_get_queue() if q == str(tid)]
+                    c.prove(len(got) == 1, 'success-only-for-delivered[%s]' % ev, detail=got)
             if graceful and tid in started:
                 c.prove(tid in ended, 'started-transfer-completes[%s]' % ev, detail=dict(side=side, tid=tid))
                 if len(mine) == 1:
